@@ -330,6 +330,9 @@ func (m *Machine) learnBounds(t *Term, val bool) {
 				set(b, a.C, a.C)
 			}
 		}
+	case OpSLT, OpSLE:
+		// signed facts: record them, and turn them into unsigned intervals once the sign is known
+		m.learnSigned(t.Op, a, b, val)
 	case OpULT:
 		if val { // a < b
 			if b.Op == OpConst && b.C > 0 {
@@ -363,4 +366,112 @@ func (m *Machine) learnBounds(t *Term, val bool) {
 			}
 		}
 	}
+}
+
+type srng struct{ lo, hi int64 }
+
+// learnSigned records signed bounds of x from  x <s c / c <s x  facts; when the lower bound is
+// non-negative the interval is also an unsigned one.
+func (m *Machine) learnSigned(op Op, a, b *Term, val bool) {
+	w := a.Sort.W
+	minS, maxS := -int64(1)<<uint(w-1), int64(1)<<uint(w-1)-1
+	if w == 64 {
+		minS, maxS = -1<<63, 1<<63-1
+	}
+	upd := func(x *Term, lo, hi int64) {
+		if x.Op == OpConst {
+			return
+		}
+		b, ok := m.sbounds[x]
+		if !ok {
+			b = srng{minS, maxS}
+		}
+		if lo > b.lo {
+			b.lo = lo
+		}
+		if hi < b.hi {
+			b.hi = hi
+		}
+		m.sbounds[x] = b
+		if b.lo >= 0 && b.hi >= b.lo {
+			m.setBound(x, uint64(b.lo), uint64(b.hi))
+		}
+	}
+	// normalise to  a <= b  (le) or  a < b  (lt), possibly negated
+	lt := op == OpSLT
+	if !val { // not(a < b) = b <= a ; not(a <= b) = b < a
+		a, b = b, a
+		lt = !lt
+	}
+	if b.Op == OpConst {
+		c := sext(b.C, w)
+		if lt {
+			if c > minS {
+				upd(a, minS, c-1)
+			}
+		} else {
+			upd(a, minS, c)
+		}
+	}
+	if a.Op == OpConst {
+		c := sext(a.C, w)
+		if lt {
+			if c < maxS {
+				upd(b, c+1, maxS)
+			}
+		} else {
+			upd(b, c, maxS)
+		}
+	}
+}
+
+// rewriteCmp moves constants across additions when the interval analysis excludes
+// overflow:  c2 <op> c1 + x   becomes   c2-c1 <op> x  (and symmetrically), which lets
+// comparisons of int(f)+k with constants become floating-point comparisons of f.
+func (m *Machine) rewriteCmp(c *Term) *Term {
+	switch c.Op {
+	case OpNot:
+		r := m.rewriteCmp(c.Args[0])
+		if r != c.Args[0] {
+			return m.st.Not(r)
+		}
+		return c
+	case OpSLT, OpSLE:
+	default:
+		return c
+	}
+	a, b := c.Args[0], c.Args[1]
+	if a.Sort.K != KBV {
+		return c
+	}
+	w := a.Sort.W
+	half := uint64(1) << uint(w-2)
+	strip := func(t *Term) (*Term, uint64, bool) {
+		if t.Op == OpAdd {
+			x, k := t.Args[0], t.Args[1]
+			if x.Op == OpConst {
+				x, k = k, x
+			}
+			if k.Op == OpConst && x.Op != OpConst && k.C < half {
+				if r := m.rangeOf(x); r.hi < half {
+					return x, k.C, true
+				}
+			}
+		}
+		return t, 0, false
+	}
+	if b.Op == OpConst && b.C < half {
+		if x, k, ok := strip(a); ok {
+			// x + k <op> c  <=>  x <op> c - k   (all quantities small and non-negative; c-k may be negative)
+			nc := int64(b.C) - int64(k)
+			return m.st.Bin(c.Op, x, m.st.BV(w, uint64(nc)))
+		}
+	}
+	if a.Op == OpConst && a.C < half {
+		if x, k, ok := strip(b); ok {
+			nc := int64(a.C) - int64(k)
+			return m.st.Bin(c.Op, m.st.BV(w, uint64(nc)), x)
+		}
+	}
+	return c
 }
